@@ -277,20 +277,18 @@ func generate(h *harness) {
 	// 1. bounded-exhaustive: every letter sequence up to length L behind each preamble, both protocols
 	L := run.Scale(2, 3)
 	preambles := [][]int{{}, {0}, {0, 4}, {0, 4, 18, 4}}
+	depth := []int{2, run.Scale(3, 4), run.Scale(3, 4), L} // without an init nothing happens: depth 2 suffices there
 	count := 0
 	for _, proto := range []string{"ws", "tws"} {
 		for pi, pre := range preambles {
-			l := L
-			if pi == 0 && L > 2 {
-				l = 2 // without an init nothing happens; depth 2 suffices
-			}
+			l := depth[pi]
 			enumerate(l, func(seq []int) {
 				if h.stop {
 					return
 				}
 				push(build(run.Rand.Fork(), proto, pre, seq, true))
 				count++
-				if len(seq) == l || run.Thorough() {
+				if (len(seq) == l && l <= 2) || (run.Thorough() && l <= 3) {
 					// the same history without waiting between the frames
 					push(build(run.Rand.Fork(), proto, pre, seq, false))
 					count++
@@ -300,7 +298,7 @@ func generate(h *harness) {
 	}
 	flush()
 	run.SetExhaustive(true)
-	run.Note("bounded-exhaustive: all sequences of length ≤ %d over the %d-letter alphabet %v behind the preambles [], [init], [init, subscription], [init, subscription, event, subscription], both protocols, in lockstep (a quiescence point after every step) and — the longest ones — also without waiting: %d sessions; spelling variants and endings drawn from the PRNG", L, nLetters, letterNames, count)
+	run.Note("bounded-exhaustive: all sequences over the %d-letter alphabet %v of length ≤ %v behind the preambles [], [init], [init, subscription], [init, subscription, event, subscription] respectively, both protocols, in lockstep (a quiescence point after every step) and — the short ones — also without waiting: %d sessions; spelling variants and endings drawn from the PRNG", nLetters, letterNames, depth, count)
 	// 2. special shapes
 	for i := 0; i < run.Scale(4, 24); i++ {
 		push(manySubs(run.Rand.Fork(), run.Rand.Range(101, 140)))
@@ -313,7 +311,7 @@ func generate(h *harness) {
 	}
 	flush()
 	// 3. random longer histories
-	n := run.Scale(1500, 30000)
+	n := run.Scale(3000, 30000)
 	procs := []int{0}
 	if run.Thorough() {
 		procs = []int{0, 1, 2}
